@@ -76,3 +76,13 @@ Example C01_nonvacuous :
      ORemove 6; OSetNow 2000; OGcStep;
      OReadSync (Some 5) (Some 1) None].
 Proof. reflexivity. Qed.
+
+(* "precisely the frames that were accepted": every live frame was put there by an accepted
+   append or an import earlier in the history (and C08 says exactly how frames leave) *)
+From XS Require Proofs.SpecP2.
+Theorem C01_live_provenance : forall ops now f,
+  In f (a_live (SpecP2.after0 now ops)) ->
+  exists pre o post, ops = pre ++ o :: post /\
+    (o = OImport f \/ exists i f0 a', o = OAppend i f0 /\ a_append (SpecP2.after0 now pre) i f0 = (Ok f, a')).
+Proof. exact SpecP2.live_provenance. Qed.
+Print Assumptions C01_live_provenance.
